@@ -411,6 +411,61 @@ def run_openlink(case):
     return out
 
 
+_MALFORMED = ['radio://0/abc/2M', 'radio://0/80/2M/XYZ', 'radio://0/80/2M/E7E7E7E7E7E7', 'radio://0/80/2M/E7E7E7E7E7E7E7', 'radio://0/80/2M/0102030405060708',
+              'radio://0/80/2M/E7E7E7E7E7E', 'radio://NOSUCHSER/80/2M', 'radio://0/80/2M/E7E7E7E7E7?rate_limit=fast', 'radio://0/8 0/2M', 'radio://0/-/1M',
+              'radio://0/80/2M/0x12', 'radio://7/80/2M', 'radio://0/1.5/2M', 'radio://0/80/1M/E7E7E7E7E7E701?rate_limit=100', 'radio://0//2M', 'radio://0/80/2M/GGGGGGGGGG']
+
+
+def malformed_cases(tier):
+    for u in _MALFORMED:
+        yield {'kind': 'malformed-radio', 'uri': u}
+
+
+def run_malformed_with_dongle(case):
+    """a Crazyradio IS attached: a malformed radio URI must still end in connection_failed from open_link, with no driver left on the
+    Crazyflie object and nothing transmitted or configured on the dongle"""
+    import cflib.crtp as crtp
+    from vlib.fakeradio import FakeDongle, RadioEnv
+    out = Outcome(nontrivial=True)
+    out.feat('malformed-with-dongle')
+    from cflib.crazyflie import Crazyflie
+    cf = Crazyflie()
+    events = []
+    for n in ['connection_requested', 'connection_failed', 'link_established', 'connected', 'fully_connected', 'disconnected', 'connection_lost']:
+        getattr(cf, n).add_callback(lambda *a, n=n: events.append(n))
+    dongle = FakeDongle(serial='E7E7E7E7AB')
+    saved = list(crtp.CLASSES)
+    crtp.CLASSES[:] = _classes(False)
+    try:
+        with RadioEnv(lambda: [dongle]):
+            try:
+                cf.open_link(case['uri'])
+            except BaseException as e:  # noqa
+                out.fail('openlink:escaping-exception:malformed-with-dongle', '%r -> %r' % (case['uri'], e))
+            import time as _t
+            _t.sleep(0.02)
+            if events != ['connection_requested', 'connection_failed']:
+                out.fail('openlink:events:malformed-with-dongle', '%r -> %r' % (case['uri'], events))
+            if dongle.tx or dongle.ctrl:
+                out.fail('openlink:dongle-used:malformed', '%r: the dongle was configured %r and transmitted %r' % (case['uri'], dongle.ctrl[:4], dongle.tx[:2]))
+            if cf.link is not None:
+                out.fail('openlink:link-left', '%r leaves link %r' % (case['uri'], cf.link))
+                # closing may never return (the radio thread can be waiting for a dongle answer that never comes): do not wait for it
+                import threading as _th
+                lnk = cf.link
+                try:
+                    lnk._thread._sp = True
+                    lnk._radio._rsp_queue.put(None)
+                except Exception:  # noqa
+                    pass
+                closer = _th.Thread(target=lambda: cf.close_link(), daemon=True)
+                closer.start()
+                closer.join(2.0)
+    finally:
+        crtp.CLASSES[:] = saved
+    return out
+
+
 def subchecks(tier):
     return [
         Sub('parse', run_parse, strategy=radio_uri(), examples={'quick': 2500, 'thorough': 150000}),
@@ -418,4 +473,5 @@ def subchecks(tier):
         Sub('scan', run_scan, strategy=scan_case(), examples={'quick': 60, 'thorough': 3000}),
         Sub('claim', run_claim, strategy=claim_case(), examples={'quick': 400, 'thorough': 20000}),
         Sub('openlink', run_openlink, strategy=openlink_case(), examples={'quick': 200, 'thorough': 10000}),
+        Sub('malformed-with-dongle', run_malformed_with_dongle, cases=malformed_cases, distinct_by_construction=True),
     ]
